@@ -96,6 +96,9 @@ func (v *formatter_) GetMaximum() int {
 // Public
 
 func (v *formatter_) FormatValue(value any) (source string) {
+	// Start from a clean state even if an earlier call was aborted by a panic.
+	v.result_.Reset()
+	v.depth_ = 0
 	v.formatValue(value)
 	v.appendNewline()
 	source = v.getResult()
